@@ -19,7 +19,7 @@ import anyio
 import anyio.lowlevel
 from anyio import CancelScope
 
-from asphalt.core import add_teardown_callback, run_application, start_service_task
+from asphalt.core import add_teardown_callback, context_teardown, run_application, start_service_task
 
 from ..core import HORIZON, LIVELOCKS, Sim, SimDeadlock, SimStepLimit, _LivelockGuard, backend_seam
 from . import compreg
@@ -66,10 +66,30 @@ class _LogTap(logging.Handler):
                 return
 
 
+@context_teardown
+async def _shared_ctd(h: Any, spec: dict):  # type: ignore[no-untyped-def]
+    """ONE @context_teardown function used by several components (like the start() of a
+    component class with several instances): each call owns its own generator."""
+    sim = h.sim
+    tid = spec["id"]
+    sim.log("td_reg", td=tid)
+    yield
+    sim.log("td_run", td=tid)
+    how = "done"
+    try:
+        await sim.pause(0, spec.get("dur", 0.0))
+    except BaseException:
+        how = "cancelled"
+        raise
+    finally:
+        sim.log("td_done", td=tid, how=how)
+
+
 class H:
     def __init__(self, sim: Sim, plan: dict) -> None:
         self.sim = sim
         self.plan = plan
+        self.callables: dict[str, Any] = {}
         self.by_cls: dict[type, tuple[str, dict]] = {}
         root = plan["root"]
         self.root_cls = compreg.CliRoot if plan.get("cli") else compreg.klass(root["slot"], True, True)
@@ -144,6 +164,15 @@ class H:
                 await sim.pause(a[1], a[2])
             elif op == "td":
                 self.td(a[1])
+            elif op == "td_again":
+                # the very same callable once more (e.g. a shared flush() registered by two
+                # components): two registrations, two calls, each in its own LIFO slot
+                cb_ = self.callables.get(a[1])
+                if cb_ is not None:
+                    add_teardown_callback(cb_)
+                    sim.log("td_reg", td=a[1])
+            elif op == "ctd":
+                await _shared_ctd(self, a[1])
             elif op == "svc":
                 await self.svc(a[1])
             elif op == "stall":
@@ -207,6 +236,7 @@ class H:
                 sim.log("td_done", td=tid, how="done")
 
         add_teardown_callback(cb)
+        self.callables[tid] = cb
         sim.log("td_reg", td=tid)
 
     async def svc(self, spec: dict) -> None:
@@ -448,8 +478,8 @@ def oracle(sim: Sim, plan: dict) -> list[dict]:
                     stack.remove(r[5]["td"])
             else:
                 stack.pop()
-    missing = [t for t in regs if ran.count(t) == 0]
-    dup = sorted({t for t in ran if ran.count(t) > 1})
+    missing = sorted({t for t in regs if ran.count(t) < regs.count(t)})
+    dup = sorted({t for t in ran if ran.count(t) > regs.count(t)})
     ending = _ending(plan, tr)
     sim.probe("ending:" + ending + (":cli" if plan.get("cli") else ":service"))
     if missing:
@@ -459,7 +489,7 @@ def oracle(sim: Sim, plan: dict) -> list[dict]:
     if not ok_order and not missing and not dup:
         v("C15.teardown", f"order@{ending}", f"teardown callbacks ran {ran}, registered {regs} (must be reverse order) (ending: {ending})")
     done = [r[5]["td"] for r in tr if r[4] == "td_done" and r[0] < end[0]]
-    unfinished = [t for t in ran if t not in done]
+    unfinished = sorted({t for t in ran if done.count(t) < ran.count(t)})
     if unfinished and not late:
         v(
             "C15.teardown",
@@ -600,6 +630,15 @@ def gen(rng: random.Random, tier: str, prop: str) -> dict:
                     ntd[0] += 1
                     spec["nested"] = {"id": f"cb{ntd[0]}", "async": rng.random() < 0.5, "dur": rng.choice(DTS[:4])}
                 out.append(["td", spec])
+                if rng.random() < 0.12 and not spec.get("nested"):
+                    # ... and, a little later, the same callable again
+                    out.append(rpause(rng, 0.3))
+                    ntd[0] += 1
+                    out.append(["td", {"id": f"cb{ntd[0]}", "async": False, "dur": 0.0}])
+                    out.append(["td_again", spec["id"]])
+                elif rng.random() < 0.12:
+                    ntd[0] += 1
+                    out.append(["ctd", {"id": f"cb{ntd[0]}", "dur": rng.choice(DTS[:4])}])
             elif allow_svc and nsvc[0] < 3:
                 nsvc[0] += 1
                 sv: dict[str, Any] = {"name": f"s{nsvc[0]}"}
